@@ -96,7 +96,18 @@ impl<'a> Work<'a> {
         if is_block_repeat(page, opcode) {
             s.pc = (s.pc & 0xFF00) | (0x10 + rng.below(0xD0) as u16);
         }
-        let bytes = encode(page, opcode, &mut rng);
+        let mut bytes = encode(page, opcode, &mut rng);
+        if !is_instruction(page, opcode) && (page == 3 || page == 4) {
+            // a prefix chain: let it grow and end in the Q readers SCF/CCF now and then
+            let mut i = 2;
+            while i < 5 && rng.chance(1, 2) {
+                bytes[i] = *rng.pick(&[0xDDu8, 0xFD]);
+                i += 1;
+            }
+            if rng.chance(1, 2) && i < bytes.len() {
+                bytes[i] = *rng.pick(&[0x37u8, 0x3F]);
+            }
+        }
         pair.script = Script { seed: case_id ^ self.ctx.seed, step: 0, int: false, nmi: false, vector: rng.u8() };
         pair.set_state(&s);
         pair.poke_bytes(s.pc, &bytes);
@@ -279,6 +290,8 @@ impl<'a> Work<'a> {
                     }
                     if rng.chance(1, 4) {
                         prog.push(0xED);
+                    } else if rng.chance(1, 3) {
+                        prog.push(*rng.pick(&[0x37u8, 0x3F]));
                     }
                 }
                 6 => prog.push(0x00),
